@@ -61,6 +61,55 @@ func main() {
 			fn(r)
 		}()
 		os.Exit(r.Finish())
+	case "check-all":
+		// bmverif check-all <outdir> [Cnn...]: the self-test scripts' fast path. Runs the named checks
+		// (default: all) one after the other in ONE process, sharing the loaded program between
+		// checks that ask for the same configuration; writes <outdir>/<id>.out and <outdir>/<id>.rc.
+		// The registered commands never use it.
+		if len(os.Args) < 3 {
+			usage()
+		}
+		outdir := os.Args[2]
+		ids := os.Args[3:]
+		if len(ids) == 0 {
+			for id := range checks.Registry {
+				ids = append(ids, id)
+			}
+		}
+		sort.Strings(ids)
+		tier := os.Getenv("VERIF_TIER")
+		if tier != "thorough" {
+			tier = "quick"
+		}
+		core.ShareLoads = true
+		stdout := os.Stdout
+		for _, id := range ids {
+			fn, ok := checks.Registry[id]
+			if !ok {
+				fmt.Fprintf(os.Stderr, "no check registered for %s\n", id)
+				os.Exit(2)
+			}
+			f, err := os.Create(outdir + "/" + id + ".out")
+			if err != nil {
+				fmt.Fprintln(os.Stderr, err)
+				os.Exit(2)
+			}
+			os.Stdout = f
+			checks.ResetGlobals()
+			r := core.NewRun(id, tier)
+			func() {
+				defer func() {
+					if e := recover(); e != nil {
+						r.Fatal("analyser panic: %v", e)
+					}
+				}()
+				fn(r)
+			}()
+			rc := r.Finish()
+			os.Stdout = stdout
+			f.Close()
+			os.WriteFile(outdir+"/"+id+".rc", []byte(fmt.Sprintf("%d\n", rc)), 0o644)
+		}
 	case "debug-effects":
 		checks.DebugEffects(os.Args[2])
 	case "manifest":
